@@ -198,7 +198,7 @@ Definition union_single_and_range (v : aval) (min : option aval) (cs : option ch
                             | None => Err
                             | Some idx1 =>
                                 let set0 := fold_left (fun acc i => seq_insert i acc) idx1 [] in
-                                let set1 := fold_left (fun acc i => seq_insert i acc) (seq min_i (max_i - min_i)) set0 in
+                                let set1 := fold_left (fun acc i => seq_insert i acc) (seq min_i (S max_i - min_i)) set0 in
                                 match set1 with
                                 | [] => Panic                                   (* indices[0] on an empty vector *)
                                 | first :: rest =>
@@ -323,8 +323,8 @@ Definition dispatch (recur : elem -> sop -> eos -> res (option elem))
   | Contained, Some Contained => Ok None
   | Contained, Some c => Ok (match o with Inter => Some c | _ => None end)
   | c, Some Contained => Ok (match o with Union => None | _ => Some c end)
-  | Alpha inner, None => unwrap_none inner
-  | Size inner, None => unwrap_none inner
+  | Alpha inner, None => match o with Union => Ok None | _ => unwrap_none inner end
+  | Size inner, None => match o with Union => Ok None | _ => unwrap_none inner end
   | _, _ => combine base o fo cs rc
   end.
 
